@@ -13,6 +13,7 @@ import Driver.Std
 import Driver.Line
 import Driver.StreamCase
 import Driver.PathCase
+import Driver.AliasCase
 
 open Jl
 
@@ -28,6 +29,7 @@ def runLine (line : String) : Driver.Result :=
     Driver.StreamCase.runStream prop ti to proc reader writer ext impl
   | ["path", _, row, op, path, val, ext, impl] => Driver.PathCase.runPath row op path val ext impl
   | ["probe", _, what, impl] => Driver.PathCase.runProbe what impl
+  | ["alias", _, tmpl, ops, ext, obs] => Driver.AliasCase.runCase tmpl ops ext obs
   | ["conc", _, tmpl, cfg, impl] =>
     if impl == "same" then ⟨"S", ""⟩
     else ⟨"P", s!"conc {cfg} template [{tmpl}]: {impl} violates C20: key=results-differ-from-sequential"⟩
